@@ -95,6 +95,28 @@ def sweep_cases(ctx):
                 c["steps"] = [{"flags": ["m", "c"]}, {"put": [{"path": "leaf.yaml", "text": json.dumps(dict(leaf, subject="CN=KR Holder v1"))}], "flags": ["c"]}, {"flags": ["a"]},
                               {"put": [{"path": "ca.yaml", "text": json.dumps(dict(ca, subject="CN=KR CA G2"))}], "flags": ["m", "c"]}]
                 out.append(c)
+    # the parts of an artifact file in another order (the user moved the key block to the top of the file, above the hash line; or the hash
+    # line to the end): the file holds the same PKCS#8 key (or request) - it is kept through every later regeneration
+    for k in (["P-256", "RSA-1024", "brainpoolP256r1"] if ctx.quick else keys):
+        for order in ("key-first", "key-then-cert-then-hash"):
+            for who in ("mid", "leaf-request"):
+                ca, mid, leaf = cfgs(k, 0)
+                files = [("ca.yaml", ca), ("sub/mid.yaml", mid), ("sub/leaf.yaml", leaf)]
+                c = case(len(out) + 1, files, tag={"prop": "C14", "class": "%s: parts reordered by the user (%s), %s" % (k, order, who), "firstMustSucceed": True})
+                path = "sub/mid.pem"
+                if who == "leaf-request":
+                    if k.startswith("brainpool"):
+                        continue
+                    c["files"].append({"path": "sub/leaf.pem", "make": {"kind": "csr", "key": k, "cn": "Leaf", "variant": ""}})
+                    path = "sub/leaf.pem"
+                _, mid1, _ = cfgs(k, 1)
+                leaf1 = dict(leaf, subject="CN=Leaf v1")
+                edit = {"path": "sub/mid.yaml", "text": json.dumps(mid1)} if who == "mid" else {"path": "sub/leaf.yaml", "text": json.dumps(leaf1)}
+                c["steps"] = [{"put": [{"path": path, "make": {"kind": "damage", "key": order, "cn": who}}], "flags": ["m", "c"]},       # nothing else changed
+                              {"put": [{"path": path, "make": {"kind": "damage", "key": order, "cn": who}}, edit], "flags": ["m", "c"]},  # reordered again + configuration edited
+                              {"put": [{"path": path, "make": {"kind": "damage", "key": order, "cn": who}}], "flags": ["a"]},
+                              {"put": [{"path": "ca.yaml", "text": json.dumps(dict(ca, subject="CN=Key CA G2"))}], "flags": ["m", "c"]}]
+                out.append(c)
     # a PKCS#8 key of an algorithm gopki cannot use (Ed25519): it is the user's key all the same - whatever the run does
     # (fail, most likely), the key stays in the file
     for flags in (["m", "c"], ["a"]):
